@@ -314,6 +314,14 @@ def builder_state(call):
     """For a call to XBuilder::<S>::build / a setter, return the list of 'Set'/'Unset' markers of the
     typestate tuple S (from the concrete generic args)."""
     types = call.body.types
+    flat = []
+    for a in call.ga:
+        if isinstance(a, int):
+            t = types.get(a)
+            if t["k"] == "adt" and t["n"].startswith("bon::private::"):
+                flat.append(t["n"].split("::")[-1])
+    if flat and len(flat) == len([a for a in call.ga if isinstance(a, int)]):
+        return flat
     for a in call.ga:
         if isinstance(a, int):
             t = types.get(a)
